@@ -473,20 +473,31 @@ _c("C04",
    "model/implementation correspondence in vm_compute")
 _c("C08",
    "PARTIAL. Coq theorems (Props/C08.v, closed under the global context) over a model of the draft-4 fragment (Schema/Draft4.v: syntax, "
-   "fuelled semantics valid4, well-formedness wf4) and of structure_to_schema's per-field mappers with the dialect translation "
-   "(Schema/ToSchema.v): for every field declaration free of the characterised defects the exported schema is well formed and its refs "
-   "resolve (C08_wf, field_ind' over all constructors), and for every declaration of the completeness fragment (numbers with bounds/"
-   "multiplesOf/signs, strings, booleans, enum classes, sized arrays, string-keyed maps, AnyOf/Optional over scalars, any nesting) the "
-   "serialization of every value the documented rules accept validates against the export (C08_complete, C08_complete_vset: "
-   "compiler-correctness style structural induction; only oracle assumption: re.match implies re.search); the unrestricted "
-   "statements are Definitions with refutation witnesses. The class level (object form, renames, definitions closure), Set/Tuple/"
-   "positional arrays/uniqueItems/AllOf/OneOf/Not/class references and the exactness clause are decided by the differential: model "
-   "to_schema vs real structure_to_schema, model valid4 and wf vs the independent jsonschema Draft4Validator (python3-vt), real "
-   "Serializer output validated against the real export, boundary documents on the exact sub-fragment vs the Deserializer.",
-   "Trusted: Coq kernel + vm_compute; Draft4.v/ToSchema.v hand-written, validated against jsonschema 4.x; harness/c08_vt_worker.py; "
-   "valid4 is fuelled (theorems carry fdepth f <= n).",
-   "Coq proof (schema completeness by structural induction over field declarations against a formal draft-4 semantics) + "
-   "model/implementation and model/independent-validator correspondence in vm_compute")
+   "fuelled semantics valid4, well-formedness wf4, $ref collection) and of structure_to_schema (Schema/ToSchema.v: every *Mapper.to_schema "
+   "incl. EnumMapper.adjust over enum classes with mixed-in primitive types and the by-value flag, object/wrapper form, renamed keys, "
+   "defaults, the transitive definitions closure, the dialect translation). Proved for ALL inputs of the model: every $ref of the exported "
+   "document (top-level schema and every definition) resolves inside the returned definitions whenever the reference graph is explored, with "
+   "no cleanliness hypothesis (C08_refs_resolve, induction over the closure fuel); a class free of the characterised defects, transitively, "
+   "exports a well-formed draft-4 document (C08_wf_doc; per declaration C08_wf, field_ind' over all constructors); for every declaration of "
+   "the completeness fragment (numbers with bounds/multiplesOf/signs, strings, booleans, by-name enum classes, sized arrays, string-keyed "
+   "maps, AnyOf/Optional over scalars, any nesting) the serialization of every value the documented rules accept validates "
+   "(C08_complete, C08_complete_vset; only oracle assumption: re.match implies re.search), lifted to object-form classes: properties under "
+   "renamed keys, required incl. fields with defaults, additionalProperties (C08_class_complete); the unrestricted statements are "
+   "Definitions with refutation witnesses. Tied to the source on every run: EnumMapper.adjust's isinstance order, NumberMapper's "
+   "get_min/get_max per concrete numeric class, get_mapper's dispatch table and the absence of module-level state in the export module are "
+   "REGENERATED from json_schema_mapping.py (Gen/SchemaGuards.v) and proved equal to the model (C08_src_*). Decided by the differential "
+   "(model to_schema vs real structure_to_schema on every export of a generated HISTORY of exports; model valid4/wf vs the independent "
+   "jsonschema Draft4Validator under python3-vt; model serializer vs serialize; real Serializer output validated against the real export; "
+   "boundary documents vs the Deserializer on the statement's exact sub-fragment): Set/Tuple/positional arrays/uniqueItems/AllOf/OneOf/Not/"
+   "class references/by-value enums for completeness, the whole exactness clause, history independence; StructureReference, inheritance, "
+   "ImmutableStructure and the serialization_mapper argument are outside the model and judged on observed behaviour only.",
+   "Trusted: Coq kernel + vm_compute; Draft4.v/ToSchema.v hand-written, validated against jsonschema 4.x; harness/c08_vt_worker.py; the "
+   "abstract interpreter of harness/genmods/schema_guards.py (fails closed); valid4 is fuelled (theorems carry fdepth f <= n); the by-value "
+   "flag of an Enum field is modelled per enum class (the generator declares it uniformly per class); rename maps fed to the model are "
+   "read from the real aggregate_serialization_mappers.",
+   "Coq proof (schema completeness by structural induction over field declarations against a formal draft-4 semantics, lifted to classes; "
+   "$ref closure by induction over the definitions fuel; guard tables regenerated from source with bridging lemmas) + "
+   "model/implementation and model/independent-validator correspondence in vm_compute over export histories and deterministic lattices")
 
 PENDING = {}
 
